@@ -114,6 +114,7 @@ type Sim struct {
 	deadlock bool
 	dlSites  []string
 	mapIters int64
+	live     int // tasks not finished
 	nondet   bool
 	loopCtr  uint64
 }
@@ -137,6 +138,7 @@ func New(cfg Config) *Sim {
 func (s *Sim) Spawn(name string, fn func()) *Task {
 	t := &Task{ID: len(s.tasks), Name: name, fn: fn, wake: make(chan struct{}, 1), Local: map[string]interface{}{}}
 	s.tasks = append(s.tasks, t)
+	s.live++
 	if active == s {
 		s.event("spawn", name)
 		s.start(t)
@@ -163,6 +165,7 @@ func (s *Sim) finish(t *Task) {
 		s.event("panic", fmt.Sprint(r))
 	}
 	t.state = tsDone
+	s.live--
 	if s.aborted {
 		s.done <- struct{}{}
 		return
@@ -311,7 +314,9 @@ func (s *Sim) yield(site string) {
 		s.event("capped", site)
 		s.abortFromTask(t)
 	}
-	s.dispatch(t)
+	if s.live > 1 {
+		s.dispatch(t)
+	}
 	if s.cfg.OnStep != nil {
 		s.cfg.OnStep(s)
 	}
